@@ -583,8 +583,8 @@ Proof.
     specialize (C r Hr). apply Nat.eqb_eq in C. lia.
   - lia.
   - unfold list_of_vec. rewrite map_length, seq_length. reflexivity.
-  - intros i Hi. rewrite <- (Hs i Hi). apply Rsum_n_ext. intros j Hj.
-    unfold list_of_vec. rewrite (nth_seq_map x (length rows) j 0 Hj). reflexivity.
+  - intros i Hi. etransitivity; [|exact (Hs i Hi)]. apply Rsum_n_ext. intros j Hj.
+    unfold list_of_vec, mat_of_lists. rewrite (nth_seq_map x (length rows) j 0 Hj). reflexivity.
 Qed.
 
 (* ---------------------------------------------------------------- non-vacuity: a 2x2 system that needs the row swap *)
@@ -608,5 +608,5 @@ Ltac rstep := cbv - [Rplus Rminus Rmult Rdiv Rinv Ropp Rabs Rltb Rleb Reqb IZR R
 Lemma ex_ge_ok : exists x, ge 2 2 ex_A 2 ex_b (1 / 100) = Ok x.
 Proof.
   unfold ge, ex_A, ex_b.
-  rstep.
+  rstep. Show.
 Abort.
